@@ -4,6 +4,9 @@
 // a,b ∈ {x,y,absent} of measurement "m" (plus a fixed noise measurement "n") stored in a REAL tsi1 index
 // (+ real series file), queried through tsdb.IndexSet.MeasurementSeriesByExprIterator. The oracle evaluates
 // the harness' own expression tree on each series' tag map with "absent tag = empty string".
+// Plus a SEQUENCE family: every ordered triple of queries over a small expression set (and every small
+// expression with repeated terms) on a freshly built index per case — answers must not depend on what earlier
+// queries left in the index's tag-value series-id cache.
 package c15
 
 import (
@@ -615,8 +618,10 @@ func (w *world) query(o *opened, expr influxql.Expr) queryResult {
 type Case struct {
 	Mask    int    `json:"series_mask"`
 	Variant string `json:"variant"`
-	Expr    *Node  `json:"expr"`
+	Expr    *Node  `json:"expr,omitempty"`
 	Text    string `json:"text"`
+	// Seq (sequence family): the queries run one after the other on ONE fresh index; Expr is unset then.
+	Seq []*Node `json:"seq,omitempty"`
 }
 
 type verdict struct {
@@ -762,6 +767,335 @@ func (w *world) describe(cs Case, v verdict) string {
 		cs.Variant, w.maskNames(cs.Mask), cs.Text, got, w.names(v.want))
 }
 
+// ---------------------------------------------------------------------------------------------------------
+// sequence family: the CASE is a sequence of queries run one after the other on ONE freshly built index (so
+// the tag-value series-id cache state each query leaves behind is part of the case); every answer of the
+// sequence must equal the reference. Replay rebuilds the index and re-executes the whole sequence.
+
+// seqLeafPool: a='x' and b='y' (cached tag-value sets), a!='x' (measurement minus the cached set) and
+// a=~/^x/ (regex path merging the per-value sets).
+func seqLeafPool() []*Leaf {
+	return []*Leaf{
+		{Key: "a", Op: "=", Lit: "x"}, {Key: "b", Op: "=", Lit: "y"}, {Key: "a", Op: "!=", Lit: "x"},
+		{Key: "a", Op: "=~", Lit: "^x", Regex: true},
+	}
+}
+
+// seqExprs(n): the first n leaves of the pool and every L AND|OR R over them (ordered pairs incl. L=R):
+// n + 2n² expressions (n=2: 10, n=3: 21, n=4: 36).
+func seqExprs(n int) []*Node {
+	ls := seqLeafPool()[:n]
+	var out []*Node
+	for _, l := range ls {
+		out = append(out, lf(l))
+	}
+	for _, op := range []string{"OR", "AND"} {
+		for _, l := range ls {
+			for _, r := range ls {
+				out = append(out, &Node{Op: op, L: lf(l), R: lf(r)})
+			}
+		}
+	}
+	return out
+}
+
+// repExprs: fully parenthesised expressions over the first 3 pool leaves with 3 leaves (2 tree shapes) and,
+// if four, with 4 leaves (5 tree shapes; some term necessarily occurs twice) × every operator assignment.
+func repExprs(four bool) []*Node {
+	ls := seqLeafPool()[:3]
+	ops := []string{"OR", "AND"}
+	var out []*Node
+	// trees(k): all binary trees with k leaves over ls, inner nodes parenthesised.
+	var trees func(k int) []*Node
+	memo := map[int][]*Node{}
+	trees = func(k int) []*Node {
+		if t, ok := memo[k]; ok {
+			return t
+		}
+		var t []*Node
+		if k == 1 {
+			for _, l := range ls {
+				t = append(t, lf(l))
+			}
+		} else {
+			for i := 1; i < k; i++ {
+				for _, op := range ops {
+					for _, l := range trees(i) {
+						for _, r := range trees(k - i) {
+							t = append(t, &Node{Op: op, L: l, R: r, Paren: true})
+						}
+					}
+				}
+			}
+		}
+		memo[k] = t
+		return t
+	}
+	ks := []int{3}
+	if four {
+		ks = append(ks, 4)
+	}
+	for _, k := range ks {
+		for _, n := range trees(k) {
+			top := *n
+			top.Paren = false
+			out = append(out, &top)
+		}
+	}
+	return out
+}
+
+// series sets of the sequence family (bit i = series i of universe: index = 3*ai+bi over a,b ∈ (x,y,absent)).
+const (
+	seqMaskAll  = 511 // all 9 series
+	seqMaskFour = 401 // {a=x,b=x} {a=y,b=y} {b=y} {}
+	seqMaskMix  = 156 // {a=x} {a=y,b=x} {a=y,b=y} {b=y}
+	seqMaskNoAX = 408 // {a=y,b=x} {a=y,b=y} {b=y} {}: no series carries a=x
+)
+
+// seqPlan: one (variant, series set) with either all ordered triples over seqExprs(NLeaves) (Triples) or all
+// repeated-term expressions as sequences of length 1 (Rep: 3 = three-leaf only, 4 = three- and four-leaf).
+type seqPlan struct {
+	variant string
+	mask    int
+	nLeaves int // triples over seqExprs(nLeaves); 0 = none
+	rep     int // 0 none, 3, 4
+}
+
+func seqPlans(thorough bool) []seqPlan {
+	if thorough {
+		return []seqPlan{
+			{varLog, seqMaskAll, 4, 4}, {varLog, seqMaskFour, 4, 4}, {varLog, seqMaskMix, 4, 0}, {varLog, seqMaskNoAX, 4, 0},
+			{varLog8, seqMaskAll, 3, 4}, {varLog8, seqMaskFour, 3, 0},
+			{varTSI, seqMaskAll, 3, 4},
+		}
+	}
+	return []seqPlan{
+		{varLog, seqMaskAll, 3, 4}, {varLog, seqMaskFour, 2, 0},
+		{varLog8, seqMaskAll, 2, 3},
+	}
+}
+
+func parseNodes(ns []*Node) ([]ex, error) {
+	var out []ex
+	for _, n := range ns {
+		t := n.text()
+		e, err := influxql.ParseExpr(t)
+		if err != nil {
+			return nil, fmt.Errorf("influxql.ParseExpr(%q): %v", t, err)
+		}
+		out = append(out, ex{n, t, n.shape(), e})
+	}
+	return out, nil
+}
+
+// seqRun executes the sequence on a fresh index of the variant holding the series set. It returns one verdict
+// per executed query and the position of the first wrong answer (-1: none); it stops at the first wrong answer
+// or panic (pdesc != "").
+func (w *world) seqRun(mask int, variant string, seq []ex) (vs []verdict, firstBad int, pdesc string, err error) {
+	o, err := w.open(mask, variant)
+	if err != nil {
+		return nil, -1, "", err
+	}
+	defer o.close()
+	for k, x := range seq {
+		var v verdict
+		p, d := vlib.Guard(func() { v = w.judge(o, mask, x.n, x.expr) })
+		if p {
+			return vs, k, d, nil
+		}
+		vs = append(vs, v)
+		if v.bad {
+			return vs, k, "", nil
+		}
+	}
+	return vs, -1, "", nil
+}
+
+func seqText(seq []ex) string {
+	var p []string
+	for _, x := range seq {
+		p = append(p, x.text)
+	}
+	return strings.Join(p, " ; ")
+}
+
+func seqNodes(seq []ex) []*Node {
+	var p []*Node
+	for _, x := range seq {
+		p = append(p, x.n)
+	}
+	return p
+}
+
+// seqSig: class of a wrong answer inside a sequence: direction, variant, sequence length, position of the first
+// wrong answer, and whether the same query is answered correctly when it is the only query on a fresh index
+// (right = the wrong answer depends on what the earlier queries of the sequence left behind).
+func (w *world) seqSig(mask int, variant string, seq []ex, k int, dir string) string {
+	alone := "wrong"
+	if len(seq) > 1 {
+		if _, fb, pd, err := w.seqRun(mask, variant, seq[k:k+1]); err == nil && fb < 0 && pd == "" {
+			alone = "right"
+		}
+	}
+	return vlib.JoinSig("sequence", "MeasurementSeriesByExprIterator", dir, variant,
+		fmt.Sprintf("len=%d", len(seq)), fmt.Sprintf("first-wrong=q%d", k+1), "same-query-alone-on-fresh-index="+alone)
+}
+
+func (w *world) describeSeq(mask int, variant string, seq []ex, vs []verdict, k int) string {
+	var p []string
+	for i := 0; i < k && i < len(vs); i++ {
+		p = append(p, fmt.Sprintf("q%d WHERE %s -> %s (ok)", i+1, seq[i].text, w.names(vs[i].got.selected)))
+	}
+	v := vs[k]
+	got := w.names(v.got.selected)
+	if v.got.err != "" {
+		got = "error " + v.got.err
+	}
+	if len(v.got.foreign) > 0 {
+		got += " +foreign" + fmt.Sprint(v.got.foreign)
+	}
+	p = append(p, fmt.Sprintf("q%d WHERE %s selected %s, InfluxQL semantics (absent tag = '') select %s", k+1, seq[k].text, got, w.names(v.want)))
+	return fmt.Sprintf("fresh index(%s) holding m-series %s, queries in sequence: %s", variant, w.maskNames(mask), strings.Join(p, "; "))
+}
+
+// seqCase runs one sequence case and reports it.
+func (w *world) seqCase(c *vlib.Ctx, mask int, variant string, seq []ex) {
+	vs, fb, pd, err := w.seqRun(mask, variant, seq)
+	if err != nil {
+		c.HarnessError(fmt.Sprintf("cannot build index mask=%d variant=%s: %v", mask, variant, err))
+		return
+	}
+	c.Eval(1)
+	cs := Case{Mask: mask, Variant: variant, Text: seqText(seq), Seq: seqNodes(seq)}
+	if pd != "" {
+		c.Violation(vlib.JoinSig("sequence", "MeasurementSeriesByExprIterator", "panic", pd), fmt.Sprintf("panic on q%d of %s: %s", fb+1, cs.Text, pd), cs)
+		return
+	}
+	nontriv := false
+	cls := fmt.Sprintf("seq%d:ref=", len(seq))
+	for i, v := range vs {
+		nontriv = nontriv || v.nontriv
+		if i > 0 {
+			cls += ","
+		}
+		cls += v.selClass
+	}
+	if nontriv {
+		c.NontrivialN(1)
+	}
+	if fb >= 0 {
+		c.Outcome(fmt.Sprintf("seq%d:wrong-answer", len(seq)))
+		c.Violation(w.seqSig(mask, variant, seq, fb, vs[fb].dir), w.describeSeq(mask, variant, seq, vs, fb), cs)
+		return
+	}
+	c.Outcome(cls)
+	if nontriv && len(seq) > 1 && c.WantSample() {
+		var ans []string
+		for _, v := range vs {
+			ans = append(ans, w.names(v.got.selected))
+		}
+		c.Sample(map[string]any{"variant": variant, "stored": w.maskNames(mask), "sequence": cs.Text, "selected": ans})
+	}
+}
+
+// runSequences explores the sequence family; *unit is the running shard unit index shared with the
+// single-expression family. A unit = all q3 for one (plan, q1, q2), or 32 consecutive repeated-term expressions.
+func runSequences(c *vlib.Ctx, w *world, unit *int64) bool {
+	pools := map[int][]ex{}
+	for _, n := range []int{2, 3, 4} {
+		p, err := parseNodes(seqExprs(n))
+		if err != nil {
+			c.HarnessError(err.Error())
+			return false
+		}
+		pools[n] = p
+	}
+	reps := map[int][]ex{}
+	for _, r := range []int{3, 4} {
+		p, err := parseNodes(repExprs(r == 4))
+		if err != nil {
+			c.HarnessError(err.Error())
+			return false
+		}
+		reps[r] = p
+	}
+	capped := func() bool {
+		if c.Expired() {
+			c.Cap("wall budget reached: not every unit of the sequence family was explored; explored units are complete")
+			return true
+		}
+		return false
+	}
+	// repeated-term expressions first (sequences of length 1), then the triples
+	for _, pl := range seqPlans(c.Thorough()) {
+		if pl.rep == 0 {
+			continue
+		}
+		es := reps[pl.rep]
+		for i := 0; i < len(es); i += 32 {
+			*unit++
+			if !c.Mine(*unit) {
+				continue
+			}
+			if capped() {
+				return false
+			}
+			for j := i; j < i+32 && j < len(es); j++ {
+				w.seqCase(c, pl.mask, pl.variant, es[j:j+1])
+			}
+		}
+	}
+	for _, pl := range seqPlans(c.Thorough()) {
+		if pl.nLeaves == 0 {
+			continue
+		}
+		es := pools[pl.nLeaves]
+		for _, q1 := range es {
+			for _, q2 := range es {
+				*unit++
+				if !c.Mine(*unit) {
+					continue
+				}
+				if capped() {
+					return false
+				}
+				for _, q3 := range es {
+					w.seqCase(c, pl.mask, pl.variant, []ex{q1, q2, q3})
+				}
+			}
+		}
+	}
+	return true
+}
+
+func replaySeq(cs Case) (bool, string) {
+	w, err := newWorld()
+	if err != nil {
+		return false, "cannot create series file: " + err.Error()
+	}
+	defer w.close()
+	seq, err := parseNodes(cs.Seq)
+	if err != nil {
+		return false, "harness: " + err.Error()
+	}
+	vs, fb, pd, err := w.seqRun(cs.Mask, cs.Variant, seq)
+	if err != nil {
+		return false, "cannot build index: " + err.Error()
+	}
+	if pd != "" {
+		return true, fmt.Sprintf("panic on q%d of %s: %s", fb+1, seqText(seq), pd)
+	}
+	if fb >= 0 {
+		return true, "VIOLATED (" + vs[fb].dir + "): " + w.describeSeq(cs.Mask, cs.Variant, seq, vs, fb)
+	}
+	var p []string
+	for i, v := range vs {
+		p = append(p, fmt.Sprintf("q%d WHERE %s -> %s (ok)", i+1, seq[i].text, w.names(v.got.selected)))
+	}
+	return false, "ok: " + strings.Join(p, "; ")
+}
+
 func TestCheck(t *testing.T) {
 	vlib.Main(t, &vlib.Check{
 		ID: "C15", Level: "exploration",
@@ -771,13 +1105,18 @@ func TestCheck(t *testing.T) {
 			"× every one of the 2^9 subsets of the 9 series of measurement m over tags a,b∈{x,y,absent} (+5 fixed series of a noise measurement n) stored in a real tsi1 index, " +
 			"in storage variants log (1 partition, L0 log file; all sets, all depths), tsi (1 partition, compacted .tsi index files; quick every 8th set; thorough all sets to depth 1 and every 4th set to depth 2), log8 (default 8 partitions; depth<=1; quick every 8th set, thorough every 4th), split (thorough: IndexSet of two 8-partition indexes, depth<=1, every 4th set); " +
 			"queried via IndexSet.MeasurementSeriesByExprIterator (residual Expr, if any, evaluated by the reference); oracle = direct evaluation on each series' tag map with absent tag = ''; " +
-			"non-trivial = the reference selects a non-empty proper subset of the stored m-series (cases distinct by construction)",
+			"non-trivial = the reference selects a non-empty proper subset of the stored m-series (cases distinct by construction); " +
+			"SEQUENCE family (a case = a sequence of queries run one after the other on ONE freshly built single-index IndexSet, every answer must equal the reference; the index is rebuilt for every case and for replay): " +
+			"(i) every ordered triple (q1,q2,q3), incl. repeated queries, over E(n) = the first n leaves of [a='x', b='y', a!='x', a=~/^x/] and every L AND|OR R over them (ordered pairs incl. L=R; |E(2)|=10, |E(3)|=21, |E(4)|=36) — " +
+			"quick: E(3)³ on log × all 9 series, E(2)³ on log × {a=x,b=x},{a=y,b=y},{b=y},{} and on log8 × all 9; thorough: E(4)³ on log × 4 series sets (all 9; the 4-set; {a=x},{a=y,b=x},{a=y,b=y},{b=y}; a 4-set without any a=x), E(3)³ on log8 × 2 sets and on tsi × all 9; " +
+			"(ii) sequences of length 1 = every fully parenthesised expression with 3 leaves (2 tree shapes) and 4 leaves (5 tree shapes; a term necessarily repeats) over [a='x', b='y', a!='x'] × every AND/OR assignment (216 + 3240), each on its own fresh index — quick: log × all 9 (3+4 leaves), log8 × all 9 (3 leaves); thorough: log × 2 sets, log8 and tsi × all 9; " +
+			"a sequence is non-trivial if some query's reference answer is a non-empty proper subset",
 		Assumptions: []string{
 			"expression text is parsed with the influxql module's ParseExpr (a dependency, not repo code); omitted parentheses follow InfluxQL precedence AND > OR, left associative",
 			"one series file shared by all indexes of a worker (as shards of one database share it)",
-			"replay rebuilds a fresh index, so a violation that depends on the tag-value cache state left by earlier queries may not reproduce (it is then reported as a harness error, not an alarm); replay runs the query twice (cold and warm cache)",
+			"single-expression families: many expressions are evaluated on one index and replay rebuilds a fresh index, so a wrong answer that depends on the tag-value cache state left by earlier queries may not reproduce (it is then reported as a harness error, not an alarm); replay runs the query twice (cold and warm cache). State left behind by earlier queries is the subject of the sequence family, whose cases and replays are whole sequences on a fresh index",
 		},
-		QuickBudgetS: 40, ThoroughBudgetS: 720,
+		QuickBudgetS: 55, ThoroughBudgetS: 720,
 		Run:    run,
 		Replay: replay,
 	})
@@ -873,6 +1212,10 @@ func run(c *vlib.Ctx) {
 	}
 	sort.SliceStable(masks, func(i, j int) bool { return pop(masks[i]) < pop(masks[j]) })
 	var unit int64
+	if !runSequences(c, w, &unit) {
+		return
+	}
+	c.Logf("sequence family done at %v", time.Since(t0))
 	for _, mask := range masks {
 		for _, us := range unitsFor(c, mask) {
 			variant := us.variant
@@ -906,7 +1249,7 @@ func run(c *vlib.Ctx) {
 					pp, dd := vlib.Guard(func() { v = w.judge(o, mask, n, x.expr) })
 					c.Eval(1)
 					if pp {
-						cs := Case{mask, variant, n, text}
+						cs := Case{Mask: mask, Variant: variant, Expr: n, Text: text}
 						c.Violation(vlib.JoinSig("MeasurementSeriesByExprIterator", "panic", dd), "panic on "+text+": "+dd, cs)
 						continue
 					}
@@ -925,7 +1268,7 @@ func run(c *vlib.Ctx) {
 					}
 					c.Outcome(cls)
 					if v.bad {
-						cs := Case{mask, variant, n, text}
+						cs := Case{Mask: mask, Variant: variant, Expr: n, Text: text}
 						c.Violation(w.sigOf(o, mask, v, variant, n), w.describe(cs, v), cs)
 					}
 					if v.nontriv && c.WantSample() {
@@ -947,8 +1290,11 @@ func run(c *vlib.Ctx) {
 
 func replay(c *vlib.Ctx, raw json.RawMessage) (bool, string) {
 	var cs Case
-	if err := json.Unmarshal(raw, &cs); err != nil || cs.Expr == nil {
+	if err := json.Unmarshal(raw, &cs); err != nil || (cs.Expr == nil && len(cs.Seq) == 0) {
 		return false, "bad case"
+	}
+	if len(cs.Seq) > 0 {
+		return replaySeq(cs)
 	}
 	w, err := newWorld()
 	if err != nil {
